@@ -22,6 +22,9 @@ def IsOperand (x : Str) : Prop := x.head? ≠ some '-' ∨ x = ['-']
     (`Spec.candidates` is the declarative resolution; `longMatch_resolves` ties the code to it.) -/
 def Denotes (specs : List OptionSpec) (p : Str) (s : OptionSpec) : Prop := Spec.candidates specs p = [s]
 
+instance (specs : List OptionSpec) (p : Str) (s : OptionSpec) : Decidable (Denotes specs p s) :=
+  inferInstanceAs (Decidable (Spec.candidates specs p = [s]))
+
 /-- the mode lets the long option `s` through -/
 def LongAllowed (mode : Mode) (s : OptionSpec) : Prop :=
   mode.longOptionNames = true ∧ (s.extension = true → mode.extensionOptions = true)
